@@ -342,6 +342,42 @@ def check_constant(e, out, si, ti, resolved):
       return
   bits = {TT.INT4: 4, TT.INT8: 8, TT.INT16: 16, TT.INT32: 32, TT.INT64: 64}[
       t1.type]
+  # the stored parameters are the spec parameters of the element's own
+  # channel statistics (so that C17's round-trip lemma applies to them and the
+  # decoded value is within half a step / one step of the original)
+  tc = resolved.get('tc')
+  if tc is not None:
+    shape_ = tuple(int(v) for v in t0.shape)
+    idxa = np.arange(n).reshape(shape_) if shape_ else np.arange(1)
+    for c in range(nch):
+      sel = (np.take(idxa, c, axis=qdim).reshape(-1) if nch > 1
+             else idxa.reshape(-1))
+      els = [x.el[i] for i in sel]
+      zp_ref, sc_ref, zpf = spec.zp_scale(spec.fold_min(els),
+                                          spec.fold_max(els), tc.num_bits,
+                                          tc.symmetric, True)
+      s_el, z_el = q.scale[c], q.zeroPoint[c]
+      s_arr = s_el if isinstance(s_el, SymArray) else SymArray.from_numpy(
+          np.asarray(s_el, np.float32))
+      z_arr = z_el if isinstance(z_el, SymArray) else SymArray.from_numpy(
+          np.asarray(z_el))
+      e.check('C05.parameters_are_spec_parameters_of_own_channel',
+              symnp.astype(s_arr, np.float32).terms()[0] == sc_ref,
+              info=[nm, c, 'scale'])
+      if zpf is not None:
+        zdt = np.dtype(np.int8 if tc.num_bits <= 8 else np.int16)
+        zref = z3.SignExt(64 - zdt.itemsize * 8,
+                          B.Bits().cast(np.dtype(np.float32), zdt, zpf))
+        zgot = symnp.astype(z_arr, np.int64).terms()[0]
+        e.check('C05.parameters_are_spec_parameters_of_own_channel',
+                zgot == zref, info=[nm, c, 'zero point'])
+        # and the zero point is inside the integer range (otherwise the cast
+        # above wrapped and the decoded values are far off)
+        qmn, qmx = spec.qrange(tc.num_bits)
+        e.check('C05.zero_point_in_range',
+                z3.And(z3.fpGEQ(zpf, spec.fp(float(qmn))),
+                       z3.fpLEQ(zpf, spec.fp(float(qmx)))),
+                info=[nm, c])
   out_dt = {4: np.int8, 8: np.int8, 16: np.int16, 32: np.int32, 64: np.int64}[
       bits]
   idx = list(np.ndindex(*shape)) if shape else [()]
@@ -441,7 +477,8 @@ def make_harness(kind, wshape, recipe):
           tc = cfg.weight_tensor_config if widx is not None else \
               cfg.activation_tensor_config
           check_constant(e, out, si, i, {
-              'symmetric': True if is_bias or tc is None else tc.symmetric})
+              'symmetric': True if is_bias or tc is None else tc.symmetric,
+              'tc': None if is_bias else tc})
   return h
 
 
@@ -634,6 +671,25 @@ def concrete_problems(inp, out):
       bits = {TT.INT4: 4, TT.INT8: 8, TT.INT16: 16, TT.INT32: 32,
               TT.INT64: 64}[t1.type]
       sym = bool(np.all(zp == 0))
+      # the property's own statement: decode + dequantize with the tensor's
+      # parameters reproduces the original within half a step (symmetric) /
+      # one step (asymmetric), element by element
+      if bits <= 16:
+        deq = decoder.dequantize(vals, sc, zp, qdim, tuple(t0.shape))
+        step = sc.astype(np.float64) if len(sc) == 1 else sc.astype(
+            np.float64).reshape([len(sc) if dd == qdim else 1
+                                 for dd in range(len(t0.shape))])
+        lim = step * (0.5 if sym else 1.0) * (1 + 1e-3)
+        err = np.abs(deq - x.astype(np.float64))
+        if np.any(err > lim):
+          k = np.unravel_index(np.argmax(err / np.broadcast_to(
+              step, err.shape)), err.shape) if err.shape else ()
+          pr.append(f'{nm}: element {tuple(int(v) for v in k)} decodes to '
+                    f'{float(deq[k]) if err.shape else float(deq)!r}, original '
+                    f'{float(x[k]) if err.shape else float(x)!r}: off by '
+                    f'{float(np.max(err / step)):.1f} steps (scale {sc!r}, '
+                    f'zero point {zp!r})')
+          continue
       for mi in (np.ndindex(*t0.shape) if len(t0.shape) else [()]):
         c = mi[qdim] if len(sc) > 1 else 0
         with np.errstate(all='ignore'):
